@@ -29,7 +29,7 @@ fn c17_execute() {
                 shim::n_calls() == 1 && c.callee == target.0 && c.func == func.0 && c.args == Words::of(&args),
                 "OBL C17.forwarded_intact_once: exactly one call, to exactly the named contract and function with the arguments unchanged"
             );
-            assert!(shim::call_ret::<Val>(0) == v, "OBL C17.result_handed_back_unchanged");
+            assert!(shim::same_val(&v, &shim::call_ret::<Val>(0)), "OBL C17.result_handed_back_unchanged: what the target returned is handed back as it is");
             assert!(inst().n_changed() == 0 && pers().n_changed() == 0 && temp().n_changed() == 0 && shim::n_events() == 0, "OBL C17.execute_frame");
             kani::cover!(true, "COVER execute ok");
         }
